@@ -122,7 +122,14 @@ def signatures(r, sigw, count):
 
 
 def edge_ops(r, sigw, count):
-    return [{"op": "edge", "sig": [bits(w) for w in s]} for s in signatures(r, sigw, count)]
+    ops = [{"op": "edge", "sig": [bits(w) for w in s]} for s in signatures(r, sigw, count)]
+    # signatures on both sides of points where the first vertex changes (found by the executor by binary
+    # search on edge()): that is where low-order bits of the fixed-point product matter
+    if count >= 6:
+        for s in signatures(r, sigw, 3)[-3:]:
+            ops.append({"op": "boundary", "sig": [bits(w) for w in s], "var": r.choice(["r", "r", "w0", "w1"] if sigw == 2 else ["r", "w0"]),
+                        "frac": r.choice([0, 1, 999, 1000, r.randrange(1001), r.randrange(1001)])})
+    return ops
 
 
 def recipe(r, logic, n):
